@@ -1,40 +1,10 @@
 NOTES = ("Exit codes of ./check: 0 held, 1 violation (VIOLATION line), 2 undecided (unsupported construct / solver unknown, no VIOLATION line), "
-         "3 checker fault. Known findings: known_findings.json. Ledger of obligation verdicts on the pinned tree: baseline/ledger.json.")
+         "3 checker fault. Known findings: known_findings.json. Ledger of obligation verdicts on the pinned tree: baseline/ledger/<ID>.json. "
+         "The claim text and note of each check live in contracts/<ID>.py (MANIFEST = {...}); tools/gen_manifest.py collects them.")
 
 _PENDING = "not yet brought under contract in this build round; see DESIGN.md Part II for the planned contracts"
 
-CHECKS = {
-    "C02": {
-        "text": "remove_pbc (real AST, re-read every run), for d in {2,3}, input shape (n,d) with symbolic n (at a symbolic row) or (d,), "
-                "every cell matrix with det != 0 (general and diagonal), every periodicity mask in {0,1}^d (enumerated): result - r is "
-                "minus the sum of rint(m_k) ppp_k H[k,:] with m = r H^-1 (integer multiples of periodic cell vectors only); the fractional "
-                "coordinates of the result are m_k - rint(m_k) ppp_k (in [-1/2,1/2] for periodic axes by the rint lemma, untouched "
-                "otherwise); shift invariance away from ties, idempotence and oddness by a second symbolic run of the real body on the "
-                "transformed input; shortest image for diagonal cells; inputs not written. Rational-function identities are decided by "
-                "the ring normaliser (normal form), rounding lemmas by SMT (linear integer/real arithmetic).",
-        "note": "floats as reals (A1); assumed contracts of np.linalg.inv (adjugate/det, requires det != 0), np.rint (round half to even), "
-                "np.dot, np.array; the ring normaliser pyvc/ring.py and the rewrite step (a proved lemma instance applied to a matching "
-                "atom) are trusted; refutations are exact rational assignments replayed on the real function",
-    },
-    "C08": {
-        "text": "For l = 1..10 and every m the value returned at index m+l by the real SphHarm{l} (AST re-read every run) equals the "
-                "Condon-Shortley Y_lm generated from the Legendre recurrence in exact rationals, identically in theta and phi "
-                "(SMT unsat per entry); order m=-l..l, conjugation symmetry on the returned values, the addition theorem as a lemma on "
-                "the spec; SphHarm_above for symbolic l > 10 against the assumed scipy contract (both arms of the optional import); "
-                "the dispatcher returns the table of the requested degree for l = 1..10 and l > 10 (callee contracts).",
-        "note": "floats as reals (A1); cos/sin/sqrt uninterpreted with the axioms of pyvc/axioms.py, sin(theta) >= 0 on [0, pi], parity of "
-                "cos/sin, sqrt(q t) = sqrt(q) sqrt(t); scipy's sph_harm / sph_harm_y assumed to return Y_n^m (2 pi-periodic in azimuth); "
-                "module import checked by a CPython probe",
-    },
-    "C12": {
-        "text": "For all real r, epsilon, sigma, r_c > 0, exponents n, alpha and prefactor A, both shift settings: the triple returned by "
-                "each of the three model methods (real AST, re-read every run) equals (ds/dr, ds/dr(r_c)|0, d2s/dr2) of the documented "
-                "potential, the derivatives being produced by symbolic differentiation of the documented s(r); the selector returns the "
-                "triple of the requested model (callee contracts, not bodies). Every obligation is an SMT unsat result.",
-        "note": "floats as reals (A1); symbolic exponents via uninterpreted POW with shift axioms; differentiation rules of pyvc/diff.py "
-                "trusted; Hertz: documented convention r_c = sigma, alpha > 1, r < sigma as precondition",
-    },
-}
+ALL = ["C%02d" % k for k in range(1, 21)]
 
-NOT_APPLICABLE = {p: _PENDING for p in
-                  ["C01", "C03", "C04", "C05", "C06", "C07", "C09", "C10", "C11", "C13", "C14", "C15", "C16", "C17", "C18", "C19", "C20"]}
+# properties deliberately not claimed, with the reason (overrides _PENDING)
+NOT_APPLICABLE_REASONS = {}
